@@ -80,6 +80,7 @@ type Session struct {
 	StaleDeferred map[string]bool
 	LastRecvMax   uint16 // Receive Maximum of the connection that ended last
 	EverOwed      map[string]bool // every QoS>0 message that was ever queued or in flight for this session
+	LateAcks      map[uint16]byte // acknowledgements owed to a connection that ended before they arrived (id -> packet type)
 	LeakyBefore   bool            // an earlier session of this client id had messages held back
 }
 
